@@ -206,10 +206,23 @@ def run(ctx: Ctx) -> None:
         # __exit__: unconditional restore of the same attribute, falsy return
         g = CFG(ex.node)
 
+        # locals of __exit__ bound exactly once (`previous = self.original`) stand for their value
+        once: dict[str, list] = {}
+        for n_ in walk_no_nested(ex.node):
+            if isinstance(n_, ast.Assign) and len(n_.targets) == 1 and isinstance(n_.targets[0], ast.Name) and n_.targets[0].id != FLAG:
+                once.setdefault(n_.targets[0].id, []).append(n_.value)
+
+        def through_local(e):
+            while isinstance(e, ast.Name) and len(once.get(e.id, ())) == 1:
+                e = once[e.id][0]
+            return e
+
         def restores(n, attr=saved_attr):
             a = n.ast
-            return (n.kind == "stmt" and isinstance(a, ast.Assign) and len(a.targets) == 1 and isinstance(a.targets[0], ast.Name)
-                    and a.targets[0].id == FLAG and isinstance(a.value, ast.Attribute) and dotted(a.value.value) == "self" and a.value.attr == attr)
+            if not (n.kind == "stmt" and isinstance(a, ast.Assign) and len(a.targets) == 1 and isinstance(a.targets[0], ast.Name) and a.targets[0].id == FLAG):
+                return False
+            v = through_local(a.value)
+            return isinstance(v, ast.Attribute) and dotted(v.value) == "self" and v.attr == attr
         has_global_ex = any(isinstance(st, ast.Global) and FLAG in st.names for st in ex.node.body)
         all_paths = g.every_path_to_exit_passes(restores)
         rets = [r for r in walk_no_nested(ex.node) if isinstance(r, ast.Return) and r.value is not None
